@@ -7,6 +7,7 @@ import (
 	"sync/atomic"
 
 	"github.com/deepteams/webp/internal/dsp"
+	"github.com/deepteams/webp/internal/verifhook"
 )
 
 // analysisWorker holds per-worker buffers for parallel analysis.
@@ -277,6 +278,7 @@ func computeAlphas(enc *VP8Encoder, alphas []int) int {
 		if startY >= endY {
 			break
 		}
+		verifhook.Range("analysis", 0, enc.mbH, wi, numWorkers, startY, endY)
 		wg.Add(1)
 		go func(startY, endY int) {
 			defer wg.Done()
